@@ -206,4 +206,19 @@ theorem addVote_any_iff (round vr : Int) (any : Bool) :
 
 theorem enterPrecommit_polRound_iff (pol r : Int) : Gen.e_enterPrecommit_polRound pol r = decide (pol < r) := rfl
 
+/-- `defaultDoPrevote`: the vote for the locked block is signed exactly when a block is locked - no
+    other condition stands in front of it (the model's `doPrevote`: `match n.lockedBlock with | some b => ...`) -/
+theorem doPrevote_locked_votes_lock (l : Bool) :
+    Gen.t_doPrevote_lock (cs_LockedBlock_notNil := l) = "reach" ↔ l = true := by
+  unfold Gen.t_doPrevote_lock
+  cases l <;> simp
+
+/-- `defaultDoPrevote`: the proposal block is prevoted exactly when nothing is locked, a proposal
+    block is there and it validates (the model's `doPrevote`, second half) -/
+theorem doPrevote_block_iff (l p e : Bool) :
+    Gen.t_doPrevote_block (cs_LockedBlock_notNil := l) (cs_ProposalBlock_notNil := p)
+      (cs_state_ValidateBlock_cs_ProposalBlock_err_notNil := e) = "reach" ↔ (l = false ∧ p = true ∧ e = false) := by
+  unfold Gen.t_doPrevote_block
+  cases l <;> cases p <;> cases e <;> simp
+
 end AnnVerif.Ties
